@@ -12,6 +12,8 @@ VERIF = os.path.dirname(os.path.dirname(os.path.abspath(__file__)))
 REPO = "/repo"
 COQ = os.path.join(VERIF, "coq")
 WORK = os.path.join(VERIF, "work")
+# development aid: a scratch copy of the harness module can be used instead of /verif/harness
+HARNESS = os.environ.get("VERIF_HARNESS_DIR", os.path.join(VERIF, "harness"))
 ENV = dict(os.environ, GOFLAGS="-mod=mod", GOPROXY="off", GOSUMDB="off", GOTOOLCHAIN="local",
            CGO_ENABLED=os.environ.get("CGO_ENABLED", "0"))
 
@@ -122,7 +124,7 @@ class Check:
 
     # ---------------------------------------------------------------- Go
     def go_build(self, race=False):
-        h = os.path.join(VERIF, "harness")
+        h = HARNESS
         try:
             shutil.copyfile(os.path.join(REPO, "go.sum"), os.path.join(h, "go.sum"))
         except OSError:
@@ -137,7 +139,7 @@ class Check:
         return rc == 0, out
 
     def harness(self, args, timeout=900, race=False):
-        b = os.path.join(VERIF, "harness", "bin/ftdcverif-race" if race else "bin/ftdcverif")
+        b = os.path.join(HARNESS, "bin/ftdcverif-race" if race else "bin/ftdcverif")
         return sh([b] + list(args), cwd=self.work, env=self.env, timeout=timeout)
 
     def model(self, outname, args, timeout=900):
